@@ -2535,4 +2535,399 @@ theorem n_pow_ui_correct (bneg : Bool) (bp : List Nat) (e : Nat) (hb : Norm bp) 
           rw [(Nat.even_iff.mpr (by omega)).neg_pow]; push_cast; rfl
 
 
+
+/-! ### mpz_powm_ui -/
+
+/-- `tn = k; tn -= (top limb == 0)`: a value below `B^k` is below `B^(dropTop v k)`. -/
+theorem dropTop_spec (v k : Nat) (hv : v < B ^ k) : v < B ^ dropTop v k ∧ dropTop v k ≤ k := by
+  unfold dropTop
+  by_cases h0 : v / B ^ (k - 1) = 0
+  · simp only [h0, if_true]
+    exact ⟨(Nat.div_eq_zero_iff_lt (Nat.pow_pos B_pos)).mp h0, by omega⟩
+  · simp only [h0, if_false]
+    exact ⟨hv, by omega⟩
+
+/-- the state invariant of mpz_powm_ui's loop: `x` fits `xn ≤ mn` limbs and is `≡ b^h (mod ms)`. -/
+def PuiInv (ms mn b h x xn : Nat) : Prop := x < B ^ xn ∧ xn ≤ mn ∧ x ≡ b ^ h [MOD ms]
+
+theorem puiReduce_spec (ms mn t tn : Nat) (hms1 : B ^ (mn - 1) ≤ ms) (hms2 : ms < B ^ mn) (hmn : 1 ≤ mn)
+    (ht : t < B ^ tn) :
+    (puiReduce ms mn t tn).1 < B ^ (puiReduce ms mn t tn).2 ∧ (puiReduce ms mn t tn).2 ≤ mn ∧
+    ((puiReduce ms mn t tn).1 ≡ t [MOD ms]) ∧ (puiReduce ms mn t tn).1 < ms := by
+  unfold puiReduce
+  by_cases h : tn < mn
+  · simp only [h, if_true]
+    refine ⟨ht, by omega, Nat.ModEq.refl _, ?_⟩
+    have : B ^ tn ≤ B ^ (mn - 1) := Nat.pow_le_pow_right B_pos (by omega)
+    omega
+  · simp only [h, if_false]
+    have hpos : 0 < ms := lt_of_lt_of_le (Nat.pow_pos B_pos) hms1
+    have := Nat.mod_lt t hpos
+    exact ⟨by omega, le_refl _, Nat.mod_modEq _ _, this⟩
+
+theorem puiLoop_spec (ms mn b bn : Nat) (hms1 : B ^ (mn - 1) ≤ ms) (hms2 : ms < B ^ mn) (hmn : 1 ≤ mn)
+    (hb : b < B ^ bn) :
+    ∀ (bits : List Bool) (x xn h : Nat), PuiInv ms mn b h x xn →
+      PuiInv ms mn b (bits.foldl (fun a bit => 2 * a + (if bit then 1 else 0)) h)
+        (puiLoop ms mn b bn bits x xn).1 (puiLoop ms mn b bn bits x xn).2 ∧
+      (bits ≠ [] → (puiLoop ms mn b bn bits x xn).1 < ms)
+  | [], x, xn, h, hI => by simpa [puiLoop] using hI
+  | bit :: rest, x, xn, h, hI => by
+    obtain ⟨hx, hxn, hc⟩ := hI
+    have ht : x * x < B ^ (2 * xn) := by rw [two_mul, pow_add]; exact Nat.mul_lt_mul'' hx hx
+    obtain ⟨d1, _⟩ := dropTop_spec (x * x) (2 * xn) ht
+    obtain ⟨r1, r2, r3, r4⟩ := puiReduce_spec ms mn (x * x) (dropTop (x * x) (2 * xn)) hms1 hms2 hmn d1
+    have hc1 : (puiReduce ms mn (x * x) (dropTop (x * x) (2 * xn))).1 ≡ b ^ (2 * h) [MOD ms] := by
+      have : b ^ (2 * h) = b ^ h * b ^ h := by rw [← pow_add]; congr 1; omega
+      rw [this]; exact r3.trans (hc.mul hc)
+    rw [puiLoop]
+    simp only [List.foldl_cons]
+    generalize puiReduce ms mn (x * x) (dropTop (x * x) (2 * xn)) = p1 at *
+    obtain ⟨x1, xn1⟩ := p1
+    simp only at r1 r2 r3 r4 hc1 ⊢
+    cases bit with
+    | false =>
+      simp only [Bool.false_eq_true, if_false, Nat.add_zero]
+      obtain ⟨i1, i2⟩ := puiLoop_spec ms mn b bn hms1 hms2 hmn hb rest x1 xn1 (2 * h) ⟨r1, r2, hc1⟩
+      refine ⟨i1, fun _ => ?_⟩
+      by_cases hr : rest = []
+      · subst hr; simpa [puiLoop] using r4
+      · exact i2 hr
+    | true =>
+      simp only [if_true]
+      have ht2 : x1 * b < B ^ (xn1 + bn) := by rw [pow_add]; exact Nat.mul_lt_mul'' r1 hb
+      obtain ⟨d2, _⟩ := dropTop_spec (x1 * b) (xn1 + bn) ht2
+      obtain ⟨s1, s2, s3, s4⟩ := puiReduce_spec ms mn (x1 * b) (dropTop (x1 * b) (xn1 + bn)) hms1 hms2 hmn d2
+      have hc2 : (puiReduce ms mn (x1 * b) (dropTop (x1 * b) (xn1 + bn))).1 ≡ b ^ (2 * h + 1) [MOD ms] := by
+        rw [pow_succ]; exact s3.trans (hc1.mul_right b)
+      generalize puiReduce ms mn (x1 * b) (dropTop (x1 * b) (xn1 + bn)) = p2 at *
+      obtain ⟨x2, xn2⟩ := p2
+      simp only at s1 s2 s3 s4 hc2 ⊢
+      obtain ⟨i1, i2⟩ := puiLoop_spec ms mn b bn hms1 hms2 hmn hb rest x2 xn2 (2 * h + 1) ⟨s1, s2, hc2⟩
+      refine ⟨i1, fun _ => ?_⟩
+      by_cases hr : rest = []
+      · subst hr; simpa [puiLoop] using s4
+      · exact i2 hr
+
+
+/-- the tail of mpz_powm_ui (powm_ui.c:258-266): normalise from `xn`, then `m − x` for a negative base
+    and odd exponent. -/
+theorem negfix_k (c : Bool) (xp mp : List Nat) (k : Nat) (hL : Limbs xp) (hlen : xp.length = mp.length)
+    (hxk : val xp < B ^ k) (hm : Limbs mp) (hlt : val xp < val mp) :
+    let rn := mpnNormalize xp k
+    let p := if (c && rn != 0) = true then ((sub mp (xp.take rn)).1, mpnNormalize (sub mp (xp.take rn)).1 mp.length)
+             else (xp, rn)
+    (Res.mk p.1 p.2).wf = true ∧
+    ((val (p.1.take p.2) : Nat) : Int) = (if c then -(val xp : Int) else (val xp : Int)) % (val mp : Int) := by
+  intro rn p
+  have hmpos : 0 < val mp := by omega
+  have hnv : val (xp.take rn) = val xp := by
+    show val (xp.take (mpnNormalize xp k)) = val xp
+    rw [mpnNormalize_val, ← val_take_mod xp hL, Nat.mod_eq_of_lt hxk]
+  by_cases hc : (c && rn != 0) = true
+  · have hp : p = ((sub mp (xp.take rn)).1, mpnNormalize (sub mp (xp.take rn)).1 mp.length) := by
+      simp only [p, hc, if_true]
+    rw [hp]
+    simp only [Bool.and_eq_true, bne_iff_ne, ne_eq] at hc
+    obtain ⟨hneg, hrn⟩ := hc
+    have hle : val (xp.take rn) ≤ val mp := by rw [hnv]; omega
+    have hlen' : (xp.take rn).length ≤ mp.length := by
+      rw [List.length_take, hlen]; exact Nat.min_le_right _ _
+    obtain ⟨sv, sl, sn⟩ := sub_exact mp _ hm (Limbs_take hL _) hlen' hle
+    refine ⟨wf_normalize _ _, ?_⟩
+    simp only
+    rw [normalize_val_full _ _ sn, sv, hnv, hneg]
+    simp only [if_true]
+    rw [neg_emod_nat _ _ hmpos, Nat.mod_eq_of_lt hlt]
+    have hpos : 0 < val (xp.take rn) := by
+      have := val_take_pos_of_getD xp _ (mpnNormalize_top xp k hrn)
+      have e : mpnNormalize xp k - 1 + 1 = mpnNormalize xp k := by
+        have : mpnNormalize xp k ≠ 0 := hrn
+        omega
+      rwa [e] at this
+    rw [hnv] at hpos
+    simp only [Nat.ne_of_gt hpos, if_false]
+  · have hp : p = (xp, rn) := by simp only [p, hc, Bool.false_eq_true, if_false]
+    rw [hp]
+    refine ⟨wf_normalize _ _, ?_⟩
+    simp only
+    rw [hnv]
+    cases c with
+    | false =>
+      simp only [Bool.false_eq_true, if_false]
+      rw [Int.emod_eq_of_lt (Int.natCast_nonneg _) (by exact_mod_cast hlt)]
+    | true =>
+      simp only [Bool.true_and, bne_iff_ne, ne_eq, Decidable.not_not] at hc
+      have hz : val (xp.take rn) = 0 := by rw [hc]; rfl
+      rw [hnv] at hz
+      simp only [if_true]
+      rw [hz]; simp
+
+/-- the modulus shifted left by `count_leading_zeros` of its top limb is normalised. -/
+theorem shifted_modulus (M : Nat) (hM : M ≠ 0) :
+    let mp0 := natLimbs M
+    let ms := M <<< clz (mp0.getLastD 1)
+    B ^ (mp0.length - 1) ≤ ms ∧ ms < B ^ mp0.length ∧ 1 ≤ mp0.length ∧ clz (mp0.getLastD 1) ≤ 63 ∧ M ≤ ms ∧
+    B ^ mp0.length ≤ 2 * ms := by
+  intro mp0 ms
+  have hN := Norm_natLimbs M
+  have hne : mp0 ≠ [] := fun h => hM ((natLimbs_eq_nil M).mp h)
+  have hv : val mp0 = M := val_natLimbs M
+  have hge := Norm_ge mp0 hN hne
+  obtain ⟨s1, s2, s3⟩ := sizeinbase2_spec mp0 hN.1 hne (hN.2 hne)
+  have hlen : 1 ≤ mp0.length := List.length_pos_of_ne_nil hne
+  have hclz : clz (mp0.getLastD 1) ≤ 63 := by unfold clz; omega
+  have hsz : sizeinbase2 mp0 + clz (mp0.getLastD 1) = mp0.length * 64 := by
+    unfold sizeinbase2; omega
+  rw [hv] at hge s3
+  have hms : ms = M * 2 ^ clz (mp0.getLastD 1) := Nat.shiftLeft_eq _ _
+  have hle : M ≤ ms := by rw [hms]; exact Nat.le_mul_of_pos_right _ (two_pow_pos _)
+  rw [hv] at s2
+  have hBn : B ^ mp0.length = 2 ^ (mp0.length * 64) := by rw [B_eq_two_pow, ← pow_mul, Nat.mul_comm 64]
+  refine ⟨le_trans hge hle, ?_, hlen, hclz, hle, ?_⟩
+  · rw [hms]
+    have : M * 2 ^ clz (mp0.getLastD 1) < 2 ^ sizeinbase2 mp0 * 2 ^ clz (mp0.getLastD 1) :=
+      Nat.mul_lt_mul_of_pos_right s3 (two_pow_pos _)
+    rw [← pow_add, hsz] at this
+    rw [hBn]; exact this
+  · rw [hms, hBn]
+    have h1 : 2 ^ (sizeinbase2 mp0 - 1) * 2 ^ clz (mp0.getLastD 1) ≤ M * 2 ^ clz (mp0.getLastD 1) :=
+      Nat.mul_le_mul_right _ s2
+    rw [← pow_add] at h1
+    have e : mp0.length * 64 = (sizeinbase2 mp0 - 1 + clz (mp0.getLastD 1)) + 1 := by omega
+    rw [e, pow_succ]; omega
+
+theorem natLimbs_length_le (v k : Nat) (h : v < B ^ k) : (natLimbs v).length ≤ k := by
+  by_cases h0 : v = 0
+  · rw [h0, natLimbs_zero]; exact Nat.zero_le _
+  · have hne : natLimbs v ≠ [] := fun h' => h0 ((natLimbs_eq_nil v).mp h')
+    have hge := Norm_ge (natLimbs v) (Norm_natLimbs v) hne
+    rw [val_natLimbs] at hge
+    by_contra hlt
+    have : B ^ k ≤ B ^ ((natLimbs v).length - 1) := Nat.pow_le_pow_right B_pos (by omega)
+    omega
+
+
+theorem puiX_spec (M ms mn zc bv bn el : Nat) (hM : 0 < M) (hms : ms = M * 2 ^ zc) (hms1 : B ^ (mn - 1) ≤ ms)
+    (hms2 : ms < B ^ mn) (hms3 : B ^ mn ≤ 2 * ms) (hmn : 1 ≤ mn) (hzc : zc ≤ 63) (hbv : bv < B ^ bn) (hbn : bn ≤ mn)
+    (hel : 1 ≤ el) :
+    (puiX ms mn zc bv bn el).1 < M ∧ (puiX ms mn zc bv bn el).1 < B ^ (puiX ms mn zc bv bn el).2 ∧
+    (puiX ms mn zc bv bn el).2 ≤ mn ∧ ((puiX ms mn zc bv bn el).1 ≡ bv ^ el [MOD M]) := by
+  have hMdvd : M ∣ ms := ⟨2 ^ zc, hms⟩
+  -- the state after the power loop: below ms, ≡ bv^el mod ms
+  have hp : ∀ p : Nat × Nat,
+      p = (if el = 1 then (if (decide (bn = mn) && decide (bv ≥ ms)) = true then (bv - ms, bn) else (bv, bn))
+           else puiLoop ms mn bv bn (lowerBits el) bv bn) →
+      p.1 < ms ∧ p.1 < B ^ p.2 ∧ p.2 ≤ mn ∧ (p.1 ≡ bv ^ el [MOD ms]) := by
+    intro p hpd
+    by_cases h1 : el = 1
+    · rw [if_pos h1] at hpd
+      subst h1
+      rw [pow_one]
+      by_cases hc : (decide (bn = mn) && decide (bv ≥ ms)) = true
+      · rw [if_pos hc] at hpd; subst hpd
+        simp only [Bool.and_eq_true, decide_eq_true_eq] at hc
+        obtain ⟨hbm, hge⟩ := hc
+        subst hbm
+        have h2 : B ^ bn ≤ 2 * ms := hms3
+        refine ⟨by simp only; omega, by simp only; omega, le_refl _, ?_⟩
+        simp only
+        have : bv = (bv - ms) + ms := by omega
+        unfold Nat.ModEq
+        conv_rhs => rw [this]
+        rw [Nat.add_mod_right]
+      · rw [if_neg hc] at hpd; subst hpd
+        simp only [Bool.and_eq_true, decide_eq_true_eq, not_and, not_le] at hc
+        refine ⟨?_, hbv, hbn, Nat.ModEq.refl _⟩
+        simp only
+        by_cases hbm : bn = mn
+        · exact hc hbm
+        · have : B ^ bn ≤ B ^ (mn - 1) := Nat.pow_le_pow_right B_pos (by omega)
+          omega
+    · rw [if_neg h1] at hpd
+      have hI : PuiInv ms mn bv 1 bv bn := ⟨hbv, hbn, by rw [pow_one]⟩
+      obtain ⟨⟨i1, i2, i3⟩, i4⟩ := puiLoop_spec ms mn bv bn hms1 hms2 hmn hbv (lowerBits el) bv bn 1 hI
+      rw [lowerBits_spec el (by omega)] at i3
+      have hne : lowerBits el ≠ [] := by
+        unfold lowerBits
+        have : 1 ≤ el.log2 := by
+          by_contra hlt
+          have h0 : el.log2 = 0 := by omega
+          have := @Nat.lt_log2_self el
+          rw [h0] at this; simp at this; omega
+        intro h
+        have := congrArg List.length h
+        simp at this; omega
+      rw [hpd]
+      exact ⟨i4 hne, i1, i2, i3⟩
+  unfold puiX
+  simp only
+  generalize hpe : (if el = 1 then (if (decide (bn = mn) && decide (bv ≥ ms)) = true then (bv - ms, bn) else (bv, bn))
+           else puiLoop ms mn bv bn (lowerBits el) bv bn) = p
+  obtain ⟨p1, p2, p3, p4⟩ := hp p hpe.symm
+  by_cases hz : zc = 0
+  · subst hz
+    have : ((0 : Nat) != 0) = false := rfl
+    simp only [this, Bool.false_eq_true, if_false]
+    have : ms = M := by rw [hms]; simp
+    rw [this] at p1 p4
+    exact ⟨p1, p2, p3, p4⟩
+  · have hzt : (zc != 0) = true := by simpa using hz
+    simp only [hzt, if_true]
+    rw [Nat.shiftLeft_eq]
+    -- t = p.1 · 2^zc fits tn limbs
+    have hpos2 : 0 < 2 ^ zc := two_pow_pos _
+    have htn : p.1 * 2 ^ zc < B ^ (p.2 + (if (p.1 * 2 ^ zc / B ^ p.2 != 0) = true then 1 else 0)) := by
+      by_cases h0 : p.1 * 2 ^ zc / B ^ p.2 = 0
+      · simp only [h0, bne_self_eq_false, Bool.false_eq_true, if_false, Nat.add_zero]
+        exact (Nat.div_eq_zero_iff_lt (Nat.pow_pos B_pos)).mp h0
+      · have : (p.1 * 2 ^ zc / B ^ p.2 != 0) = true := by simpa using h0
+        simp only [this, if_true]
+        rw [pow_succ]
+        have h2 : 2 ^ zc < B := by rw [B_eq_two_pow]; exact Nat.pow_lt_pow_right (by decide) (by omega)
+        exact Nat.mul_lt_mul'' p2 h2
+    obtain ⟨r1, r2, r3, r4⟩ := puiReduce_spec ms mn _ _ hms1 hms2 hmn htn
+    generalize puiReduce ms mn (p.1 * 2 ^ zc) (p.2 + (if (p.1 * 2 ^ zc / B ^ p.2 != 0) = true then 1 else 0)) = q at *
+    rw [Nat.shiftRight_eq_div_pow]
+    -- q.1 ≡ p.1·2^zc (mod M·2^zc) and is a multiple of 2^zc
+    have hq : ∃ y, q.1 = y * 2 ^ zc ∧ y < M ∧ y ≡ p.1 [MOD M] := by
+      have hd : 2 ^ zc ∣ q.1 := by
+        have h1 : (2 ^ zc) ∣ ms := ⟨M, by rw [hms, Nat.mul_comm]⟩
+        have h2 : q.1 ≡ p.1 * 2 ^ zc [MOD 2 ^ zc] := r3.of_dvd h1
+        have h3 : p.1 * 2 ^ zc ≡ 0 [MOD 2 ^ zc] := by unfold Nat.ModEq; simp
+        exact (Nat.modEq_zero_iff_dvd).mp (h2.trans h3)
+      obtain ⟨y, hy⟩ := hd
+      refine ⟨y, by rw [hy, Nat.mul_comm], ?_, ?_⟩
+      · rw [hy, hms, Nat.mul_comm] at r4
+        exact Nat.lt_of_mul_lt_mul_right r4
+      · rw [hy, hms, Nat.mul_comm (2 ^ zc) y] at r3
+        exact Nat.ModEq.mul_right_cancel' (Nat.ne_of_gt hpos2) r3
+    obtain ⟨y, hy1, hy2, hy3⟩ := hq
+    rw [hy1, Nat.mul_div_cancel _ hpos2]
+    refine ⟨hy2, ?_, r2, hy3.trans (p4.of_dvd hMdvd)⟩
+    have : y ≤ q.1 := by rw [hy1]; exact Nat.le_mul_of_pos_right _ hpos2
+    omega
+
+
+/-- `mn == 1 && mp[0] == 1` recognises `|m| = 1` (powm_ui.c:134). -/
+theorem natLimbs_is_one' (v : Nat) :
+    (decide ((natLimbs v).length = 1) && decide ((natLimbs v).headD 0 = 1)) = true ↔ v = 1 := by
+  have h := natLimbs_is_one v
+  constructor
+  · intro hc
+    by_contra hne
+    have := h.mpr hne
+    simp only [Bool.and_eq_true, decide_eq_true_eq] at hc
+    rw [hc.1, hc.2] at this
+    exact absurd this (by decide)
+  · intro h1
+    by_contra hc
+    apply (h.mp ?_) h1
+    simp only [Bool.and_eq_true, decide_eq_true_eq, not_and] at hc
+    simp only [Bool.or_eq_true, bne_iff_ne, ne_eq]
+    by_cases hl : (natLimbs v).length = 1
+    · exact Or.inr (hc hl)
+    · exact Or.inl hl
+
+/-- mpz_powm_ui (value-level model of mpz/powm_ui.c for `el < 20`, mpz_powm otherwise). -/
+theorem mpz_powm_ui_small (b : Int) (el : Nat) (m : Int) (h20 : el < 20) :
+    (mpz_powm_ui b el m).value? = powmSpec b (el : Int) m ∧ (mpz_powm_ui b el m).wf = true := by
+  unfold mpz_powm_ui
+  · simp only [h20, if_true]
+    by_cases hm0 : m = 0
+    · subst hm0; simp [natLimbs_zero, Res.value?, Res.wf, powmSpec]
+    · have hmn : m.natAbs ≠ 0 := Int.natAbs_ne_zero.mpr hm0
+      have hn : (natLimbs m.natAbs).length ≠ 0 := fun h => hmn ((natLimbs_length_eq_zero _).mp h)
+      simp only [hn, if_false]
+      have hspec : powmSpec b (el : Int) m = some (b ^ el % (m.natAbs : Int)) := by
+        unfold powmSpec; simp [hm0]
+      rw [hspec]
+      by_cases he0 : el = 0
+      · subst he0
+        simp only [if_true, pow_zero]
+        by_cases h1 : m.natAbs = 1
+        · have hc := (natLimbs_is_one' m.natAbs).mpr h1
+          simp only [hc, if_true, Res.value?, Res.wf, List.take_zero, val_nil]
+          rw [h1]; exact ⟨rfl, rfl⟩
+        · have hc := (natLimbs_is_one' m.natAbs).not.mpr h1
+          simp only [Bool.not_eq_true] at hc
+          have h2 : (1 : Int) % (m.natAbs : Int) = 1 := Int.emod_eq_of_lt (by omega) (by omega)
+          simp only [hc, Bool.false_eq_true, if_false, Res.value?, Res.wf, h2]
+          exact ⟨rfl, rfl⟩
+      · simp only [he0, if_false]
+        obtain ⟨s1, s2, s3, s4, s5, s6⟩ := shifted_modulus m.natAbs hmn
+        generalize hzc : clz ((natLimbs m.natAbs).getLastD 1) = zc at *
+        generalize hms : m.natAbs <<< zc = ms at *
+        have hmsM : ms = m.natAbs * 2 ^ zc := by rw [← hms, Nat.shiftLeft_eq]
+        have hMdvd : m.natAbs ∣ ms := ⟨2 ^ zc, hmsM⟩
+        set mn := (natLimbs m.natAbs).length with hmnd
+        -- the (possibly reduced) base
+        have hbb : ∀ bb : Nat × Nat,
+            bb = (if (natLimbs b.natAbs).length > mn then (b.natAbs % ms, (natLimbs (b.natAbs % ms)).length)
+                  else (b.natAbs, (natLimbs b.natAbs).length)) →
+            bb.1 < B ^ bb.2 ∧ bb.2 ≤ mn ∧ (bb.1 ≡ b.natAbs [MOD m.natAbs]) ∧ (bb.2 = 0 → bb.1 = 0) := by
+          intro bb hbd
+          have hmspos : 0 < ms := lt_of_lt_of_le (Nat.pow_pos B_pos) s1
+          by_cases hgt : (natLimbs b.natAbs).length > mn
+          · rw [if_pos hgt] at hbd; subst hbd
+            simp only
+            have hlt := Nat.mod_lt b.natAbs hmspos
+            refine ⟨?_, natLimbs_length_le _ _ (lt_trans hlt s2), (Nat.mod_modEq _ _).of_dvd hMdvd, ?_⟩
+            · have := val_lt _ (Limbs_natLimbs (b.natAbs % ms))
+              rwa [val_natLimbs] at this
+            · intro h; exact (natLimbs_length_eq_zero _).mp h
+          · rw [if_neg hgt] at hbd; subst hbd
+            simp only
+            refine ⟨?_, by omega, Nat.ModEq.refl _, fun h => (natLimbs_length_eq_zero _).mp h⟩
+            have := val_lt _ (Limbs_natLimbs b.natAbs)
+            rwa [val_natLimbs] at this
+        generalize hbe : (if (natLimbs b.natAbs).length > mn then (b.natAbs % ms, (natLimbs (b.natAbs % ms)).length)
+                  else (b.natAbs, (natLimbs b.natAbs).length)) = bb
+        obtain ⟨b1, b2, b3, b4⟩ := hbb bb hbe.symm
+        have helpos : 0 < el := Nat.pos_of_ne_zero he0
+        by_cases hbn0 : bb.2 = 0
+        · simp only [hbn0, if_true, Res.value?, Res.wf, List.take_nil, val_nil]
+          refine ⟨?_, by simp⟩
+          -- |b| ≡ 0 (mod |m|), hence b^el ≡ 0
+          have hz : b.natAbs ≡ 0 [MOD m.natAbs] := by rw [← b4 hbn0]; exact b3.symm
+          have hd : (m.natAbs : Int) ∣ b := by
+            have := (Nat.modEq_zero_iff_dvd).mp hz
+            exact Int.natCast_dvd.mpr this
+          have : (m.natAbs : Int) ∣ b ^ el := dvd_pow hd he0
+          rw [Int.emod_eq_zero_of_dvd this]; rfl
+        · simp only [hbn0, if_false]
+          obtain ⟨x1, x2, x3, x4⟩ := puiX_spec m.natAbs ms mn zc bb.1 bb.2 el (Nat.pos_of_ne_zero hmn) hmsM s1 s2 s6 s3 s4
+            b1 b2 helpos
+          generalize puiX ms mn zc bb.1 bb.2 el = q at *
+          have hMlt : m.natAbs < B ^ mn := lt_of_le_of_lt s5 s2
+          have hxv : val (toLimbs mn q.1) = q.1 := val_toLimbs_lt _ _ (lt_trans x1 hMlt)
+          have hnf := negfix_k (decide (el % 2 = 1) && decide (b < 0)) (toLimbs mn q.1) (natLimbs m.natAbs) q.2
+            (Limbs_toLimbs _ _) (toLimbs_length _ _) (by rw [hxv]; exact x2) (Limbs_natLimbs _)
+            (by rw [hxv, val_natLimbs]; exact x1)
+          simp only at hnf
+          obtain ⟨hw, hv⟩ := hnf
+          refine ⟨?_, hw⟩
+          unfold Res.value?
+          simp only [Option.some.injEq]
+          rw [hv, hxv, val_natLimbs]
+          -- q.1 ≡ |b|^el (mod |m|)
+          have hq : (q.1 : Int) ≡ (b.natAbs : Int) ^ el [ZMOD (m.natAbs : Int)] := by
+            have : q.1 ≡ b.natAbs ^ el [MOD m.natAbs] := x4.trans (b3.pow el)
+            have := Int.natCast_modEq_iff.mpr this
+            simpa only [Nat.cast_pow] using this
+          by_cases hneg : b < 0
+          · have hb : b = -(b.natAbs : Int) := by omega
+            simp only [hneg, decide_true, Bool.and_true, decide_eq_true_eq]
+            by_cases hodd : el % 2 = 1
+            · simp only [hodd, if_true]
+              rw [hb, (Nat.odd_iff.mpr hodd).neg_pow]
+              exact hq.neg
+            · simp only [hodd, if_false]
+              rw [hb, (Nat.even_iff.mpr (by omega)).neg_pow]
+              exact hq
+          · have hb : b = (b.natAbs : Int) := by omega
+            simp only [hneg, decide_false, Bool.and_false, Bool.false_eq_true, if_false]
+            rw [hb]; exact hq
+
+
 end Mpir.Powm
